@@ -3,7 +3,7 @@ package stringy
 // BOUNDED check (C11, command path) of the first-applying-rule semantics, which the generator
 // cannot verify (rule lists are slices of structs holding slices; regular expressions are
 // outside SMT). Exhaustive over: user-level rule lists of length 0..2 and group rule lists of
-// length 0..1 drawn from 24 rule templates (name in {*, show, configure} x patterns in
+// length 0..1 drawn from 26 rule templates (two of them written with surrounding white space) (name in {*, show, configure} x patterns in
 // {none, "running.*", "terminal|exclusive", "(bad"} x {DENY, PERMIT}), and 15 requests
 // (3 commands x 5 argument lists, one with a trailing <cr>). The real path is exercised end
 // to end: Authorizer.New (group rules appended after user rules) and Authorizer.Handle on an
@@ -62,13 +62,16 @@ type tqvRule struct {
 func tqvOracle(rules []tqvRule, cmd, argstr string) bool {
 	for _, r := range rules {
 		applies := false
-		if r.name == "*" {
+		// white space around a configured name or pattern is not part of it
+		name := strings.TrimSpace(r.name)
+		if name == "*" {
 			applies = true
-		} else if r.name == cmd {
+		} else if name == cmd {
 			if len(r.match) == 0 {
 				applies = true
 			}
 			for _, p := range r.match {
+				p = strings.TrimSpace(p)
 				if p == "" {
 					continue
 				}
@@ -98,6 +101,8 @@ func TestTqvWitness(t *testing.T) {
 			}
 		}
 	}
+	// two rules written with surrounding white space (as a quoted YAML scalar may be)
+	templates = append(templates, tqvRule{" show ", nil, false}, tqvRule{"configure", []string{" terminal|exclusive "}, false})
 	var userLists, groupLists [][]tqvRule
 	userLists = append(userLists, nil)
 	groupLists = append(groupLists, nil)
@@ -186,7 +191,7 @@ func TestTqvWitness(t *testing.T) {
 		return out
 	}
 	for _, ul := range [][]tqvRule{nil, {{"show", []string{"running.*"}, true}}} {
-		for _, base := range [][]tqvRule{{templates[1]}, {templates[8]}, {templates[11]}, {templates[16], templates[3]}} {
+		for _, base := range [][]tqvRule{{templates[1]}, {templates[8]}, {templates[11]}, {templates[16], templates[3]}, {templates[24]}, {templates[25]}} {
 			baseG := config.Group{Name: "base", Commands: spare(base)}
 			for _, ga := range templates {
 				for _, gb := range templates {
@@ -218,8 +223,8 @@ func TestTqvWitness(t *testing.T) {
 	n += n2
 	out := map[string]interface{}{
 		"obligation":  "cmds/server/config/authorizers/stringy.CommandBasedAuthorizer.evaluate/bounded.first-rule",
-		"scenario":    "exhaustive small scope: rule lists (user <= 2, group <= 1) from 24 templates x 15 requests, end to end through Authorizer.New / Handle; plus pairs of users sharing a first group (spare capacity) with 24 x 24 different last groups",
-		"evaluations": n, "mismatches": bad, "violated": len(bad) > 0 || n < 360000,
+		"scenario":    "exhaustive small scope: rule lists (user <= 2, group <= 1) from 26 templates x 15 requests, end to end through Authorizer.New / Handle; plus pairs of users sharing a first group (spare capacity) with 24 x 24 different last groups",
+		"evaluations": n, "mismatches": bad, "violated": len(bad) > 0 || n < 500000,
 	}
 	b, _ := json.Marshal(out)
 	fmt.Println("TQV-WITNESS " + string(b))
